@@ -247,6 +247,7 @@ Definition c16_conc_nontrivial (cases : list conccase) : nat :=
 Record routecase : Type := mk_routecase {
   rc_mdb : bool;                          (* cmd/mdb's Host instead of cmd/mcrew's Service *)
   rc_ids : list string;                   (* the crew: recorder machines (spec rec), sorted *)
+  rc_broken : list string;                (* members of rc_ids whose specification cannot be loaded (spec "ghost") *)
   rc_root : json;                         (* the submitted message *)
   rc_logs : list (string * list json);    (* per machine: ids of the messages it received *)
   rc_walked : list string;                (* keys of the map Process returned for the root *)
@@ -259,6 +260,9 @@ Definition rc_services (c : routecase) : list string := if rc_mdb c then [] else
 
 Definition crew_of (ids : list string) : mmap :=
   fold_left (fun acc id => mset id (mk_mrec "rec" "start" []) acc) ids [].
+Definition crew_with (ids broken : list string) : mmap :=
+  fold_left (fun acc id => mset id (mk_mrec (if existsb (String.eqb id) broken then "ghost" else "rec") "start" []) acc)
+            ids [].
 
 Fixpoint feed_fifo (services : list string) (fuel : nat) (f : fed) : fed :=
   match fuel with
@@ -279,7 +283,7 @@ Definition logs_agree (m : mmap) (logs : list (string * list json)) : bool :=
            (map (fun e : string * mrec => (fst e, log_of (snd e))) m) logs.
 
 Definition route_agrees (c : routecase) : bool :=
-  let s0 := mk_svc (crew_of (rc_ids c)) (crew_of (rc_ids c)) true in
+  let s0 := mk_svc (crew_with (rc_ids c) (rc_broken c)) (crew_with (rc_ids c) (rc_broken c)) true in
   let f := feed_fifo (rc_services c) (200 * 100) (submit (rc_root c) s0) in
   is_nil (fd_pending f)
   && logs_agree (mem (fd_svc f)) (rc_logs c)
@@ -303,8 +307,11 @@ Definition route_ok_under (who : json -> list string) (c : routecase) : bool :=
   && perm_eqb json_eqb (rc_processed c) processed
   && perm_eqb json_eqb (rc_reported c) (tl processed).
 
+(** a crew with a machine whose specification cannot be loaded is outside
+    the counting statement (a Process call that meets such a machine fails as
+    a whole); those cases are judged by the comparison with the model only *)
 Definition route_ok (c : routecase) : bool :=
-  if all_recordable 64 (rc_root c)
+  if all_recordable 64 (rc_root c) && is_nil (rc_broken c)
   then route_ok_under (addressed (rc_services c) (rc_ids c)) c
   else true.
 
